@@ -449,6 +449,122 @@ theorem unpivot_pivot_multiset (t : Table) (x : List String) (y z : String) (zs 
         (cmp_eq_trans (cmp_eq_symm hei) (cmp_eq_trans hc hej))
       rw [this]
 
+/-- **literal form** of `unpivot_pivot_multiset` for tables whose x keys are canonical (`cmp`-equal x
+keys are equal, e.g. no `1` beside `1.0`) and whose y values all have a label (`yLabel`: str, or int
+through `str`): the rows of `unpivot(pivot(d))` with a non-`None` z are, as a multiset, exactly the
+`(x, label(y), z)` triples of the rows of `d` with a non-`None` z. -/
+theorem unpivot_pivot_multiset_canonical (t : Table) (x : List String) (y z : String) (zs : List Cell)
+    (p u : VTable) (lab : Nat → String) (hn : t.nrows ≠ 0) (hx : x ≠ [])
+    (hcols : ∀ k ∈ x ++ [y], (t.col? k).isSome = true) (hz : t.col? z = some zs)
+    (hyz : (x ++ [y, z]).Nodup)
+    (huniq : ∀ i j, i < t.nrows → j < t.nrows →
+      cmp (.tuple (xCells t x i)) (.tuple (xCells t x j)) = .eq →
+      cmp (.tuple [yCell t y i]) (.tuple [yCell t y j]) = .eq → i = j)
+    (hcanon : ∀ i j, i < t.nrows → j < t.nrows →
+      cmp (.tuple (xCells t x i)) (.tuple (xCells t x j)) = .eq → xCells t x i = xCells t x j)
+    (hlab : ∀ i, i < t.nrows → yLabel (yCell t y i) = some (lab i))
+    (hp : t.pivot x y z .last = some (.ok p)) (hu : p.unpivot x y z = .ok u) :
+    ((uRows u x y z).filter fun r => !isNoneV r.2.2).Perm
+      (((List.range t.nrows).filter fun i => zs.getD i .none != .none).map fun i =>
+        (xCells t x i, Val.cell (.str (lab i)), Val.cell (zs.getD i .none))) := by
+  obtain ⟨idx, xk, label, hperm, heq, hxk, _, hlabel, _⟩ :=
+    unpivot_pivot_multiset t x y z zs p u hn hx hcols hz hyz huniq hp hu
+  rw [heq]
+  have : idx.map (fun i => (xk i, Val.cell (.str (label i)), Val.cell (zs.getD i .none))) =
+      idx.map fun i => (xCells t x i, Val.cell (.str (lab i)), Val.cell (zs.getD i .none)) := by
+    apply List.map_congr_left
+    intro i hi
+    have hin : i < t.nrows := List.mem_range.1 (List.mem_filter.1 (hperm.mem_iff.1 hi)).1
+    obtain ⟨l, hl, h1, h2⟩ := hxk i hin
+    obtain ⟨l', hl', h3, h4⟩ := hlabel i hin
+    rw [h1, ← hcanon i l hin hl h2, yLabel_congr h4 (hlab i hin) h3]
+  rw [this]
+  exact hperm.map _
+
+/-- `pivot` and then `unpivot` are defined (in the model) when all y values are strings that are not
+`x` column names — decidable hypotheses, used to show that those of `unpivot_pivot_multiset` are
+satisfiable -/
+theorem unpivot_pivot_defined_str (t : Table) (x : List String) (y z : String) (agg : Agg)
+    (zs : List Cell) (hn : t.nrows ≠ 0) (hx : x ≠ [])
+    (hcols : ∀ k ∈ x ++ [y], (t.col? k).isSome = true) (hz : t.col? z = some zs)
+    (hyz : (x ++ [y, z]).Nodup)
+    (hstr : ∀ i, i < t.nrows → ∃ s, t.jcellAt y i = .str s ∧ s ∉ x) :
+    ∃ p u, t.pivot x y z agg = some (.ok p) ∧ p.unpivot x y z = .ok u := by
+  have hxp : ∀ i, (xCells t x i).length = x.length := by intro i; simp [xCells]
+  have hkey : ∀ gy ∈ listbyG (((listbyG (xyKeys t.nrows (xCells t x) (yCell t y))).map
+      fun g => tupleGet x.length g.1).map fun v => Val.tuple [v]),
+      ∃ s, gy.1 = .tuple [.cell (.str s)] ∧ s ∉ x := by
+    intro gy hgy
+    obtain ⟨l, hl, hrep⟩ := ys_key_rep (xCells t x) (yCell t y) hn hxp gy hgy
+    obtain ⟨s, hs, hsx⟩ := hstr l hl
+    exact ⟨s, by rw [hrep, yCell, hs], hsx⟩
+  have hlabs : ∀ gy ∈ listbyG (((listbyG (xyKeys t.nrows (xCells t x) (yCell t y))).map
+      fun g => tupleGet x.length g.1).map fun v => Val.tuple [v]),
+      yLabel (tupleGet 0 gy.1) = some (labOf gy) := by
+    intro gy hgy
+    obtain ⟨s, hs, _⟩ := hkey gy hgy
+    simp [labOf, hs, tupleGet, yLabel]
+  have hnd : (x ++ (listbyG (((listbyG (xyKeys t.nrows (xCells t x) (yCell t y))).map
+      fun g => tupleGet x.length g.1).map fun v => Val.tuple [v])).map labOf).Nodup := by
+    rw [List.nodup_append]
+    refine ⟨(List.nodup_append.1 hyz).1, ?_, ?_⟩
+    · rw [List.Nodup, List.pairwise_map]
+      apply (listbyG_sorted _).imp_of_mem
+      intro a b ha hb hlt heq
+      obtain ⟨sa, hsa, _⟩ := hkey a ha
+      obtain ⟨sb, hsb, _⟩ := hkey b hb
+      have : sa = sb := by simpa [labOf, hsa, hsb, tupleGet, yLabel] using heq
+      rw [hsa, hsb, this, cmp_self] at hlt
+      cases hlt
+    · intro a ha b hb hab
+      obtain ⟨gy, hgy, rfl⟩ := List.mem_map.1 hb
+      obtain ⟨s, hs, hsx⟩ := hkey gy hgy
+      apply hsx
+      have : labOf gy = s := by simp [labOf, hs, tupleGet, yLabel]
+      rw [← this, ← hab]; exact ha
+  have hp := pivot_cell t x y z agg zs _ hn hx hcols hz (optMapM_some_of_forall hlabs) hnd
+  obtain ⟨_, hnd', hpe⟩ := pivot_ok_shape t x y z agg zs _ hn hx hcols hz hp
+  obtain ⟨u, hu, _⟩ := unpivot_pivotTable x y z _ _ labOf
+    (fun gx gy => pivotCell (listbyG (xyKeys t.nrows (xCells t x) (yCell t y))) x.length zs agg gx.2 gy.1)
+    hx hnd' hyz
+  rw [← hpe] at hu
+  exact ⟨_, u, hp, hu⟩
+
+/-- **unpivot ∘ pivot = identity on the multiset of rows, end to end** under decidable hypotheses:
+a non-empty table with columns `x` (non-empty), `y`, `z` (`x ++ [y, z]` distinct names), unique
+`(x, y)` pairs, canonical x keys (`cmp`-equal ⇒ equal) and string y values that are not `x` column
+names.  Then `d.xyz(x, y, z, last)` and its `unpivot(x, y, z)` are defined, and the rows of the
+result with a non-`None` z are, as a multiset of `(x, y, z)` triples, exactly the rows of `d` with a
+non-`None` z (a string y value is its own label). -/
+theorem unpivot_pivot_multiset_str (t : Table) (x : List String) (y z : String) (zs : List Cell)
+    (hn : t.nrows ≠ 0) (hx : x ≠ [])
+    (hcols : ∀ k ∈ x ++ [y], (t.col? k).isSome = true) (hz : t.col? z = some zs)
+    (hyz : (x ++ [y, z]).Nodup)
+    (huniq : ∀ i j, i < t.nrows → j < t.nrows →
+      cmp (.tuple (xCells t x i)) (.tuple (xCells t x j)) = .eq →
+      cmp (.tuple [yCell t y i]) (.tuple [yCell t y j]) = .eq → i = j)
+    (hcanon : ∀ i j, i < t.nrows → j < t.nrows →
+      cmp (.tuple (xCells t x i)) (.tuple (xCells t x j)) = .eq → xCells t x i = xCells t x j)
+    (hstr : ∀ i, i < t.nrows → ∃ s, t.jcellAt y i = .str s ∧ s ∉ x) :
+    ∃ p u, t.pivot x y z .last = some (.ok p) ∧ p.unpivot x y z = .ok u ∧
+      ((uRows u x y z).filter fun r => !isNoneV r.2.2).Perm
+        ((tRows t x y zs).filter fun r => !isNoneV r.2.2) := by
+  obtain ⟨p, u, hp, hu⟩ := unpivot_pivot_defined_str t x y z .last zs hn hx hcols hz hyz hstr
+  refine ⟨p, u, hp, hu, ?_⟩
+  have hlab : ∀ i, i < t.nrows → yLabel (yCell t y i) = some (t.jcellAt y i).skey := by
+    intro i hi
+    obtain ⟨s, hs, _⟩ := hstr i hi
+    simp [yCell, hs, yLabel, Cell.skey]
+  have h := unpivot_pivot_multiset_canonical t x y z zs p u (fun i => (t.jcellAt y i).skey)
+    hn hx hcols hz hyz huniq hcanon hlab hp hu
+  rw [tRows_filter]
+  refine h.trans (List.Perm.of_eq ?_)
+  apply List.map_congr_left
+  intro i hi
+  have hin : i < t.nrows := List.mem_range.1 (List.mem_filter.1 hi).1
+  obtain ⟨s, hs, _⟩ := hstr i hin
+  simp [yCell, hs, Cell.skey]
+
 /-! ## non-vacuity and evaluation tests -/
 
 def exT : Table := [("a", [.int 2, .flt 4, .int 1, .flt 8, .none]), ("v", [.int 10, .int 11, .int 12, .int 13, .int 14])]
@@ -485,6 +601,61 @@ example : exP.nrows ≠ 0 ∧ (∀ k ∈ ["a"] ++ ["y"], (exP.col? k).isSome = t
     | .ok u => u == [("a", [.cell (.int 1), .cell (.int 1), .cell (.int 2), .cell (.int 2)]),
         ("y", [.cell (.str "p"), .cell (.str "q"), .cell (.str "p"), .cell (.str "q")]),
         ("z", [.cell (.int 40), .cell (.int 20), .cell (.int 30), .cell .none])]
+    | _ => false)
+  | _ => false)
+
+/-- `exP` without its duplicate `(x, y)` row, with a `None` z and an absent `(x, y)` cell -/
+def exQ : Table := [("a", [.int 1, .int 1, .int 2, .int 3]), ("y", [.str "p", .str "q", .str "p", .str "q"]),
+  ("z", [.int 10, .int 20, .none, .int 40])]
+
+/-- the hypotheses of `unpivot_pivot_multiset_str` (hence, by `unpivot_pivot_defined_str`, those of
+`unpivot_pivot_multiset` and `unpivot_pivot_multiset_canonical`) hold on `exQ` -/
+example : exQ.nrows ≠ 0 ∧ ["a"] ≠ [] ∧ (∀ k ∈ ["a"] ++ ["y"], (exQ.col? k).isSome = true) ∧
+    exQ.col? "z" = some [.int 10, .int 20, .none, .int 40] ∧ (["a"] ++ ["y", "z"]).Nodup ∧
+    (∀ i j, i < exQ.nrows → j < exQ.nrows →
+      cmp (.tuple (xCells exQ ["a"] i)) (.tuple (xCells exQ ["a"] j)) = .eq →
+      cmp (.tuple [yCell exQ "y" i]) (.tuple [yCell exQ "y" j]) = .eq → i = j) ∧
+    (∀ i j, i < exQ.nrows → j < exQ.nrows →
+      cmp (.tuple (xCells exQ ["a"] i)) (.tuple (xCells exQ ["a"] j)) = .eq →
+      xCells exQ ["a"] i = xCells exQ ["a"] j) ∧
+    (∀ i, i < exQ.nrows → ∃ s, exQ.jcellAt "y" i = .str s ∧ s ∉ ["a"]) := by
+  have h4 : ∀ i, i < exQ.nrows → i = 0 ∨ i = 1 ∨ i = 2 ∨ i = 3 := by
+    intro i hi; simp [exQ, Table.nrows] at hi; omega
+  refine ⟨by decide, by decide, by decide, rfl, by decide, ?_, ?_, ?_⟩
+  · intro i j hi hj
+    rcases h4 i hi with rfl | rfl | rfl | rfl <;> rcases h4 j hj with rfl | rfl | rfl | rfl <;> decide
+  · intro i j hi hj
+    rcases h4 i hi with rfl | rfl | rfl | rfl <;> rcases h4 j hj with rfl | rfl | rfl | rfl <;> decide
+  · intro i hi
+    rcases h4 i hi with rfl | rfl | rfl | rfl <;> exact ⟨_, rfl, by decide⟩
+
+example : ∃ p u, exQ.pivot ["a"] "y" "z" .last = some (.ok p) ∧ p.unpivot ["a"] "y" "z" = .ok u :=
+  unpivot_pivot_defined_str exQ ["a"] "y" "z" .last [.int 10, .int 20, .none, .int 40]
+    (by decide) (by decide) (by decide) rfl (by decide) (by
+      intro i hi
+      have : i = 0 ∨ i = 1 ∨ i = 2 ∨ i = 3 := by simp [exQ, Table.nrows] at hi; omega
+      rcases this with rfl | rfl | rfl | rfl <;> exact ⟨_, rfl, by decide⟩)
+
+#guard (match exQ.pivot ["a"] "y" "z" .last with
+  | some (.ok p) => (match p.unpivot ["a"] "y" "z" with
+    | .ok u =>
+      uRows u ["a"] "y" "z" ==
+        [([.cell (.int 1)], .cell (.str "p"), .cell (.int 10)), ([.cell (.int 1)], .cell (.str "q"), .cell (.int 20)),
+         ([.cell (.int 2)], .cell (.str "p"), .cell .none), ([.cell (.int 2)], .cell (.str "q"), .cell .none),
+         ([.cell (.int 3)], .cell (.str "p"), .cell .none), ([.cell (.int 3)], .cell (.str "q"), .cell (.int 40))] &&
+      (uRows u ["a"] "y" "z").filter (fun r => !isNoneV r.2.2) ==
+        (tRows exQ ["a"] "y" [.int 10, .int 20, .none, .int 40]).filter (fun r => !isNoneV r.2.2)
+    | _ => false)
+  | _ => false)
+
+/-- int/float-equal x keys (`1` and `1.0`): the pivot table keeps one representative key per x-group,
+which is why `unpivot_pivot_multiset` states the x key up to the group representative -/
+def exR : Table := [("a", [.int 1, .flt 4]), ("y", [.str "p", .str "q"]), ("z", [.int 10, .int 20])]
+
+#guard (match exR.pivot ["a"] "y" "z" .last with
+  | some (.ok p) => (match p.unpivot ["a"] "y" "z" with
+    | .ok u => (uRows u ["a"] "y" "z").map (·.1) == [[.cell (.flt 4)], [.cell (.flt 4)]]
+        || (uRows u ["a"] "y" "z").map (·.1) == [[.cell (.int 1)], [.cell (.int 1)]]
     | _ => false)
   | _ => false)
 
